@@ -43,3 +43,33 @@ Theorem C07_decryption_only_replaces_direct_children : forall decrypt el el',
   end.
 Proof. exact decrypt_assertions_shape. Qed.
 Print Assumptions C07_decryption_only_replaces_direct_children.
+
+(* ---- binding of decryption to the SP's own currently-valid key (Keys.v = getDecryptCert, Decrypt.v = DecryptBytes) ---- *)
+From V Require Import Keys P_Keys P_C07.
+From V Require Decrypt P_Decrypt P_C11 Escape.
+
+(* key material is handed to the decryptor only when the SP certificate is non-empty, parses and is inside its
+   validity window at the SP clock: outside it no ciphertext, whoever made it, is decrypted *)
+Theorem C07_decryption_key_only_inside_certificate_window : forall parse_cert now c dc,
+  get_decrypt_cert parse_cert true now c = Ok dc ->
+  exists cert rest nb na, tc_certs dc = cert :: rest /\ cert <> ""%string /\ parse_cert cert = Some (nb, na)
+                          /\ ibefore now nb = false /\ iafter now na = false.
+Proof. exact decrypt_cert_window. Qed.
+Print Assumptions C07_decryption_key_only_inside_certificate_window.
+
+Theorem C07_decryption_refused_outside_certificate_window : forall parse_cert now c,
+  (forall dc cert rest nb na, get_decrypt_cert parse_cert false now c = Ok dc -> tc_certs dc = cert :: rest ->
+      parse_cert cert = Some (nb, na) -> ibefore now nb = true \/ iafter now na = true) ->
+  forall dc, get_decrypt_cert parse_cert true now c <> Ok dc.
+Proof. exact decrypt_cert_outside_window_refused. Qed.
+Print Assumptions C07_decryption_refused_outside_certificate_window.
+
+(* a ciphertext that names another recipient certificate is refused before any private-key operation *)
+Theorem C07_other_recipient_refused :
+  forall rsa_oaep rsa_pkcs1 sha1_hex (cert : Decrypt.sp_cert) (ek : enc_key) (c0 : String.string) rest other,
+    Decrypt.sc_chain cert = c0 :: rest -> ek_x509 ek <> ""%string ->
+    Escape.base64_decode (ek_x509 ek) = Some other -> other <> c0 ->
+    Decrypt.decrypt_symmetric_key rsa_oaep rsa_pkcs1 sha1_hex (Some cert) ek
+    = ORet (Err (Decrypt.E "key decryption attempted with mismatched cert"%string)).
+Proof. exact P_C11.key_transport_mismatch_refused. Qed.
+Print Assumptions C07_other_recipient_refused.
